@@ -100,7 +100,8 @@ def st_scenario(draw):
         reqs.append({"role": role, "tp": tp, "n": n, "remote": remote, "sock": sock, "ids": ids, "reuse": reuse, "sub": draw(st.integers(0, nsub - 1)),
                      "wait": draw(st.sampled_from(["all", "all", "single", "any"])),
                      # a create request states its number of pairs itself: its result array may be longer than needed
-                     "spare": draw(st.sampled_from([0, 0, 0, OK, 2 * OK])) if role == "create" else 0})
+                     "spare": draw(st.sampled_from([0, 0, 0, OK, 2 * OK])) if role == "create" else 0,
+                     "c0": draw(st.sampled_from([None, None, 1, 2, 5])) if tp == "M" else None})
     # at most 9 virtual qubits (unit module of 12)
     subs = []
     for s in range(nsub):
@@ -160,6 +161,10 @@ def build_text(scn, s) -> str:
                     lines.append(f"store {v} @{addr(i, 'ids')}[{j}]")
             lines.append(f"array {OK * r['n'] + r.get('spare', 0)} @{addr(i, 'res')}")
             qa = f"{addr(i, 'ids')}" if r["tp"] == "K" else "C0"
+            if r["tp"] != "K" and r.get("c0") is not None:
+                # the qubit-array operand of a measure request is ignored; here it happens to name an existing (short) array
+                lines.append(f"array {r['c0']} @{addr(i, 'ids')}")
+                lines.append(f"set C0 {addr(i, 'ids')}")
             if r["role"] == "create":
                 lines.append(f"array 20 @{addr(i, 'args')}")
                 lines.append(f"store {0 if r['tp'] == 'K' else 1} @{addr(i, 'args')}[0]")
@@ -295,6 +300,7 @@ def run(scn) -> Dict[str, Any]:
 
     alloc_log: List[Tuple[int, int]] = []
     wait_log: List[Any] = []
+    freed: set = set()
 
     class Ex(sim.TraceExecutor):
         def _allocate_physical_qubit(self, subroutine_id, virtual_address, physical_address=None):
@@ -318,6 +324,19 @@ def run(scn) -> Dict[str, Any]:
                     ok = all(v is not None for v in vals) if command.mnemonic == "wait_all" else any(v is not None for v in vals)
                 if not ok:
                     raise Failure(f"wait-resumed-early:{command.mnemonic}", case, f"{command} resumed although its entries are {vals}")
+                # a keep pair whose results the program can see is also mapped: the slice and the qubit become visible together
+                ri_ = (a - 2) // 3
+                if (a - 2) % 3 == 0 and 0 <= ri_ < len(scn["reqs"]) and scn["reqs"][ri_]["tp"] == "K":
+                    rq = scn["reqs"][ri_]
+                    arr = self._app_arrays[app][a, :]
+                    um = self._qubit_unit_modules[app]
+                    for k_ in range(rq["n"]):
+                        sl = arr[OK * k_ : OK * k_ + OK]
+                        if all(v is not None for v in sl):
+                            rec = next((d for d in sched.delivered if d["req"] == ri_ and d["pair"] == k_), None)
+                            later = [d for d in sched.delivered if d["req"] == ri_ and d["pair"] > k_ and rq["ids"][d["pair"]] == rq["ids"][k_]]
+                            if rec is not None and "phys" in rec and not later and um[rq["ids"][k_]] != rec["phys"] and not (ri_, k_) in freed:
+                                raise Failure("results-visible-before-qubit", case, f"after {command}: slice {k_} of request {ri_} is filled in but virtual qubit {rq['ids'][k_]} maps to {um[rq['ids'][k_]]}, the response carried physical qubit {rec['phys']}")
 
     by = None
     if scn.get("bystander"):
